@@ -207,3 +207,14 @@ package cafs
 //@   call WriteAt#1 assert [next-position] $p == p && $off == cw.offset + cw.written
 //@   call WriteAt#1 bind wn = $ret0
 //@   ensures [advance] wn_set && n == wn && cw.written == old(cw.written) + wn && cw.offset == old(cw.offset)
+
+// ---- the verification setting reaches the reader unchanged (C03: "when hash verification is enabled")
+// the constructor itself never assigns the flag (only the caller's option does), the option sets exactly
+// what it was given, and the file system passes its own setting
+//@ func newReader
+//@   only store:withVerifyHash 0
+//@ func ReaderVerifyHash$1
+//@   requires reader != nil
+//@   ensures [as-asked] reader.withVerifyHash == t
+//@ func (*defaultFs).reader
+//@   call ReaderVerifyHash#1 assert [fs-setting] $t == d.withVerifyHash
